@@ -28,7 +28,8 @@ CacheOf(entries) == [k \in {entries[i][1] : i \in 1..Len(entries)} |->
 
 CfgOf(c) == [scripts |-> c.scripts, auth |-> c.auth, maxItems |-> c.maxItems,
              maxItemSize |-> c.maxItemSize, callLimit |-> c.callLimit, sc |-> c.sc,
-             bc0 |-> CacheOf(c.bc0), defaults |-> FnOf(c.defaults), flags |-> FnOf(c.flags),
+             bc0 |-> CacheOf(c.bc0), defaults |-> FnOf(c.defaults), toset |-> {c.toset[i] : i \in 1..Len(c.toset)},
+             flags |-> FnOf(c.flags),
              nsig |-> c.nsig, nct |-> c.nct,
              contracts |-> {c.contracts[i] : i \in 1..Len(c.contracts)},
              now |-> c.now, forks |-> FnOf(c.forks), ret0 |-> c.ret0]
@@ -90,7 +91,8 @@ TraceNext ==
     /\ LET T == TraceLog[tid].ev IN
        IF l > Len(T)
        THEN /\ verdict' = IF vm.status # "run" THEN "ok" ELSE "short"
-            /\ PrintT(ToJson([tid |-> tid, ok |-> vm.status # "run", step |-> l, failed |-> "short",
+            /\ PrintT(ToJson([tid |-> tid, ok |-> vm.status # "run", step |-> l,
+                              failed |-> IF vm.status # "run" THEN "" ELSE "short",
                               id |-> TraceLog[tid].id]))
             /\ UNCHANGED <<vm, l, tid>>
        ELSE LET ev == T[l]
